@@ -212,7 +212,7 @@ func runC15(c *harness.Ctx, idx int) {
 	}
 	for _, d := range ds {
 		steps, levels := stepsFor(pattern, prefix, d)
-		if width >= 1000 && d > 3000 {
+		if width >= 1000 {
 			// keep wide-list messages bounded: only the first 40 wide steps stay wide
 			n := 0
 			for i, st := range steps {
